@@ -90,11 +90,26 @@ Definition leader_complete_ix (lg : list entry) (m : list (N * (entry * N))) (t 
                      then match entry_at lg k with Some x => entry_eqb x y | None => false end
                      else true) m.
 
+(* leader append-only: a node seen as leader of term t and now again leader of term t still holds every entry
+   it held (positions it has compacted away since are not visible any more and are skipped) *)
+Definition leader_kept (old new : nobs) : bool :=
+  let '(t0, _, r0, _, l0) := old in
+  let '(t, _, r, _, l) := new in
+  if N.eqb r0 2 && N.eqb r 2 && N.eqb t0 t then
+    match l with
+    | [] => match l0 with [] => true | _ => false end
+    | _ => forallb (fun x => if N.leb (first_idx l) (eidx x)
+                             then match entry_at l (eidx x) with Some y => entry_eqb x y | None => false end
+                             else true) l0
+    end
+  else true.
+
 Definition oracle_step_ix (g : ghost_ix) (i : N) (o : nobs) : option ghost_ix :=
   let '(t, v, r, c, l) := o in
   let seen' := set_nth_obs (seen_ix g) (N.to_nat i) o in
   let ls' := if N.eqb r 2 then (t, i) :: leaders_ix g else leaders_ix g in
   if negb (if N.eqb r 2 then election_ok (leaders_ix g) t i else true) then None
+  else if negb (leader_kept (nth (N.to_nat i) (seen_ix g) (0, None, 0, 0, [])) o) then None   (* leader append-only *)
   else if negb (consecutive l) then None                                   (* position k+1 follows position k *)
   else if negb (match l with [] => N.eqb c 0 | _ => N.leb (first_idx l - 1) c && N.leb c (fst (last_info l)) end) then None
        (* only committed entries are ever compacted away; nothing beyond the log is reported committed *)
